@@ -302,6 +302,16 @@ def rule_hmac_chain(chk, db):
             r = flow.resolve_place(b, wr["term"]["args"][0])
             df = flow.single_def(b, flow.op_place(wr["term"]["args"][0])["l"])
             okret = df is not None and df["kind"] == "call" and df["bi"] == hm[-1][0]
+        elif wr["kind"] in ("use", "other") and wr.get("rv", {}).get("ops"):
+            # the last stage was a helper (`key.sign(string_to_sign)`) whose value is moved out: the returned value is a hex(..) whose
+            # operand is the last MAC
+            sl = flow.backward(b, wr["rv"]["ops"][0], at=wr["bi"])
+            for hb, ht, _ in sl.calls:
+                if short(callee_def(ht)) == "hex" and ht["args"]:
+                    hs = flow.backward(b, ht["args"][0], at=hb)
+                    macs = [cb for cb, ct, _ in hs.calls if short(callee_def(ct)) == "hmac_sha256"]
+                    if hm[-1][0] in macs:
+                        okret = True
     if not okret:
         bad.append("the result is not hex(HMAC of the string to sign)")
     chk.verdict(not bad, "R6", "hmac-chain", b.loc(), "; ".join(bad))
